@@ -2,6 +2,7 @@ package rules
 
 import (
 	"go/token"
+	"go/types"
 	"strings"
 
 	"golang.org/x/tools/go/ssa"
@@ -154,6 +155,14 @@ func disableTagAtom(a ir.Atom) (string, bool) {
 // (the accumulator of the enclosing function); returns that append instruction.
 func flowsToAccumulator(v ssa.Value) (ssa.Instruction, bool) {
 	return ir.FlowsTo(v, func(in ssa.Instruction, operand ssa.Value) bool {
+		// the (appended) list is stored back into the captured accumulator
+		if st, isSt := in.(*ssa.Store); isSt && st.Val == operand {
+			if _, isFV := st.Addr.(*ssa.FreeVar); isFV {
+				if _, isSlice := st.Val.Type().Underlying().(*types.Slice); isSlice {
+					return true
+				}
+			}
+		}
 		c, ok := in.(*ssa.Call)
 		if !ok || ir.CallName(c.Common()) != "builtin.append" {
 			return false
@@ -276,7 +285,17 @@ func ruleHTMLTable(r *core.Reporter) {
 			allInstrs(found.closure, func(in ssa.Instruction) {
 				if c, isC := in.(*ssa.Call); isC && ir.IsCallTo(c, "strings.Split") {
 					if s, okc := ir.ConstString(c.Call.Args[1]); okc && s == "," && ir.SameValue(c.Call.Args[0], val) {
-						if loopCoversAll(found.closure, sink) {
+						at := sink
+						if _, isSt := sink.(*ssa.Store); isSt {
+							// the list is built in a local and stored back afterwards: the loop is around the append
+							if ap, okA := ir.FlowsTo(val, func(in ssa.Instruction, operand ssa.Value) bool {
+								ac, isC := in.(*ssa.Call)
+								return isC && ir.CallName(ac.Common()) == "builtin.append" && len(ac.Call.Args) >= 2 && ac.Call.Args[0] != operand
+							}, 400); okA {
+								at = ap
+							}
+						}
+						if loopCoversAll(found.closure, at) {
 							okAll = true
 						}
 					}
